@@ -215,6 +215,14 @@ func main() {
 		var fjson []interface{}
 		nf := 1 + r.Intn(maxFrames)
 		haveCursor, curCol, curRow := false, 0, 0
+		// directed pair of frames (one history in four): a frame whose last written cell is the
+		// bottom-right one and leaves the cursor hidden - the emulator is then in the deferred-wrap
+		// state - followed by a frame that changes nothing but that cell (a CUP onto the cell the
+		// cursor is already on, then text)
+		pairAt := -1
+		if nf >= 2 && h%4 == 1 {
+			pairAt = r.Intn(nf - 1)
+		}
 		for f := 0; f < nf; f++ {
 			win := vx.Window()
 			var ops, opsJ []string
@@ -225,6 +233,9 @@ func main() {
 			idle := f > 0 && haveCursor && r.Intn(6) == 0
 			if idle {
 				nops = r.Intn(2) // an idle frame: at most the cursor's shape changes
+			}
+			if f == pairAt+1 && pairAt >= 0 {
+				idle, nops = false, 0
 			}
 			for k := 0; k < nops; k++ {
 				sel := r.Intn(10)
@@ -272,9 +283,25 @@ func main() {
 					opsJ = append(opsJ, fmt.Sprintf("SetCell(%d,%d,%q)", col, row, c.Grapheme))
 				}
 			}
+			if pairAt >= 0 && (f == pairAt || f == pairAt+1) {
+				g := []string{"a", "b", "x"}[(f-pairAt+h)%3]
+				c := vaxis.Cell{Character: vaxis.Character{Grapheme: g}}
+				if f == pairAt+1 && r.Intn(2) == 0 {
+					c.Style = randStyle(r, &pool)
+				}
+				win.SetCell(cols-1, rows-1, c)
+				ops = append(ops, fmt.Sprintf("OSet %d %d %s", cols-1, rows-1, renderhx.Cell(vx, c)))
+				opsJ = append(opsJ, fmt.Sprintf("SetCell(%d,%d,%q)", cols-1, rows-1, g))
+				vx.HideCursor()
+				ops = append(ops, "OHideCursor")
+				opsJ = append(opsJ, "HideCursor")
+				haveCursor = false
+			}
 			end := "FRender"
 			resized := false
 			switch x := r.Intn(40); {
+			case pairAt >= 0 && (f == pairAt || f == pairAt+1):
+				vx.Render()
 			case x < 5:
 				vx.Refresh()
 				end = "FRefresh"
@@ -381,11 +408,11 @@ func main() {
 			direct = append(direct, hx.DirectViolation{Class: "emulator-feed", Case: js, What: feedProblem})
 		}
 		s.Add(fmt.Sprintf("Build_ecase %d %d %s %s %s %s %s", rows0, cols0, hx.List(wt), hx.List(st), hx.List(capsT), hx.Bytes(pre), hx.List(fterms)), js, nf > 1,
-			fmt.Sprintf("frames=%d", nf), fmt.Sprintf("resizes=%d", hResizes), fmt.Sprintf("dirty=%v", len(pre) > 0))
+			fmt.Sprintf("frames=%d", nf), fmt.Sprintf("resizes=%d", hResizes), fmt.Sprintf("dirty=%v", len(pre) > 0), fmt.Sprintf("lastcol-pair=%v", pairAt >= 0))
 		hx.WithTimeout(2*time.Second, vx.Close)
 		hx.WithTimeout(2*time.Second, host.Close)
 		emu.Close()
 	}
-	cfg.Write("C12", "a real Vaxis started on the real embedded emulator (handshake through the emulator's own replies), every third history over a primary screen that already holds styled text (coloured fill, coloured underlined lines and a prompt, reverse-video hyperlinked last column); random frame histories as in C01 (sizes up to 4x9 quick / 10x30 thorough, wide, zero-width and multi-codepoint graphemes, all colour classes, attributes, underline styles, hyperlinks, cursor), ended by Render, Refresh or a size change (the host window is resized - to 1x1, shrinking below the cursor, growing, random -, drawing the emulator into it resizes the emulator, Vaxis sees the new size and repaints with the next frame); after every frame the emulator's grid and cursor and the cells obtained by drawing the emulator into a host Vaxis are recorded, and for every printed run the clusters and widths the real parser (uniseg) cut it into. non-trivial = more than one frame",
+	cfg.Write("C12", "a real Vaxis started on the real embedded emulator (handshake through the emulator's own replies), every third history over a primary screen that already holds styled text (coloured fill, coloured underlined lines and a prompt, reverse-video hyperlinked last column); random frame histories as in C01 (sizes up to 4x9 quick / 10x30 thorough, wide, zero-width and multi-codepoint graphemes, all colour classes, attributes, underline styles, hyperlinks, cursor), one history in four with a directed pair of frames (the bottom-right cell written last with the cursor hidden, then a frame changing only that cell); ended by Render, Refresh or a size change (the host window is resized - to 1x1, shrinking below the cursor, growing, random -, drawing the emulator into it resizes the emulator, Vaxis sees the new size and repaints with the next frame); after every frame the emulator's grid and cursor and the cells obtained by drawing the emulator into a host Vaxis are recorded, and for every printed run the clusters and widths the real parser (uniseg) cut it into. non-trivial = more than one frame",
 		[]*hx.Stream{s}, map[string]interface{}{"frames": frames, "resizes": nResize}, direct)
 }
